@@ -58,8 +58,37 @@ func (x *Exec) seqStore(e *Env, base ast.Expr, s SeqV, iv Value, v Value) {
 }
 
 func (x *Exec) rangeSeq(st *State, n *ast.RangeStmt, s SeqV, hidden *types.Var) []outcome {
-	unsupported("%s: range over slice of non-scalars", x.pos(n))
-	return nil
+	keyIsCounter := false
+	if kid, ok := n.Key.(*ast.Ident); ok && n.Tok == token.DEFINE && kid.Name != "_" {
+		if ko, ok := x.top().pkg.TypesInfo.Defs[kid].(*types.Var); ok && ko == hidden {
+			keyIsCounter = true
+		}
+	}
+	ls := &loopSpec{id: x.loopID(n), stmt: n, body: n.Body, counter: hidden}
+	ls.cond = func(c *State) *Term {
+		h := c.vars[hidden].(Scalar)
+		return Lt(h.T, s.Len)
+	}
+	ls.pre = func(c *State) {
+		e := x.env(c)
+		h := c.vars[hidden].(Scalar)
+		if n.Key != nil && !keyIsCounter {
+			x.assignTo(e, n.Key, Scalar{h.T, intT}, n.Tok == token.DEFINE)
+		}
+		if n.Value != nil {
+			x.assignTo(e, n.Value, e.indexValue(s, Scalar{h.T, intT}, n), n.Tok == token.DEFINE)
+		}
+	}
+	ls.post = func(c *State) []outcome {
+		h := c.vars[hidden].(Scalar)
+		c.vars[hidden] = Scalar{Add(h.T, IntC(1)), intT}
+		return []outcome{{kind: oNormal, st: c}}
+	}
+	outs := x.runLoop(st, ls)
+	for _, o := range outs {
+		delete(o.st.vars, hidden)
+	}
+	return outs
 }
 
 func (x *Exec) havocSpecialStruct(e *Env, t types.Type, base string) (Value, bool) { return nil, false }
@@ -142,6 +171,47 @@ func (x *Exec) nativeFunc(e *Env, callee *types.Func, n *ast.CallExpr) (Value, b
 		return Scalar{And(Not(ev.Nil), Eq(ev.Kind, tv.Kind)), boolT}, true
 	case "errors.As":
 		return x.errorsAs(e, n), true
+	case "strings.HasPrefix", "strings.HasSuffix", "strings.TrimPrefix", "strings.TrimSuffix":
+		sv, ok1 := e.expr(n.Args[0]).(SliceV)
+		pv, ok2 := e.expr(n.Args[1]).(SliceV)
+		if !ok1 || !ok2 {
+			unsupported("%s on non-strings", key)
+		}
+		x.trusted["strings."+key+" by its definition on byte sequences"] = true
+		suffix := strings.HasSuffix(key, "Suffix")
+		part := sv
+		part.Len = pv.Len
+		if suffix {
+			part.Off = Add(sv.Off, Sub(sv.Len, pv.Len))
+		}
+		c := And(Le(pv.Len, sv.Len), x.stringEq(e, part, pv))
+		if strings.HasPrefix(key, "Has") {
+			return Scalar{c, boolT}, true
+		}
+		c = x.simplifyWithPC(e.st, c)
+		r := sv
+		if suffix {
+			r.Len = Ite(c, Sub(sv.Len, pv.Len), sv.Len)
+		} else {
+			r.Off = Ite(c, Add(sv.Off, pv.Len), sv.Off)
+			r.Len = Ite(c, Sub(sv.Len, pv.Len), sv.Len)
+		}
+		r.Cap = r.Len
+		return r, true
+	case "golang.org/x/crypto/blake2b.Sum256":
+		return x.hashBytes(e, "blake2b256", 32, e.expr(n.Args[0]), callee.Type().(*types.Signature).Results().At(0).Type()), true
+	case "crypto/sha256.Sum256":
+		return x.hashBytes(e, "sha256", 32, e.expr(n.Args[0]), callee.Type().(*types.Signature).Results().At(0).Type()), true
+	case "crypto/sha512.Sum512":
+		return x.hashBytes(e, "sha512", 64, e.expr(n.Args[0]), callee.Type().(*types.Signature).Results().At(0).Type()), true
+	case "bytes.Equal":
+		a, ok1 := e.expr(n.Args[0]).(SliceV)
+		b, ok2 := e.expr(n.Args[1]).(SliceV)
+		if !ok1 || !ok2 {
+			unsupported("bytes.Equal on non-slices")
+		}
+		a.Len, b.Len = x.simplifyWithPC(e.st, a.Len), x.simplifyWithPC(e.st, b.Len)
+		return Scalar{x.stringEq(e, a, b), boolT}, true
 	case "math/bits.Len", "math/bits.Len64":
 		v := e.expr(n.Args[0]).(Scalar)
 		return x.bitsLen(e, v), true
@@ -347,9 +417,9 @@ func (x *Exec) stringEq(e *Env, a, b SliceV) *Term {
 	if lenEq.IsFalse() {
 		return FalseT
 	}
-	n, okA := a.Len.Int64()
+	n, okA := x.simplifyWithPC(e.st, a.Len).Int64()
 	if !okA {
-		n, okA = b.Len.Int64()
+		n, okA = x.simplifyWithPC(e.st, b.Len).Int64()
 	}
 	if okA && n <= 128 {
 		cs := []*Term{lenEq}
@@ -547,4 +617,161 @@ func immutableGlobal(files []*ast.File, info *types.Info, o *types.Var) bool {
 		})
 	}
 	return ok
+}
+
+// hashBytes: a hash function is an uninterpreted function of the bytes written (T4). For inputs
+// of a statically known length the function takes the individual bytes as arguments, so equal
+// contents give equal digests without any array congruence reasoning.
+func (x *Exec) hashBytes(e *Env, name string, outLen int, v Value, rt types.Type) Value {
+	x.trusted["hash function "+name+" as an uninterpreted function of its input bytes"] = true
+	var s SliceV
+	switch c := v.(type) {
+	case SliceV:
+		s = c
+	case ArrayV:
+		a := x.alloc()
+		e.st.mem[a] = c
+		s = SliceV{Alloc: a, Off: IntC(0), Len: IntC(c.N), Cap: IntC(c.N), Elem: c.Elem, Nil: FalseT}
+	case PtrV:
+		cell := navigate(x.memCell(e.st, c.Alloc), c.Path).(ArrayV)
+		s = SliceV{Alloc: c.Alloc, path: c.Path, Off: IntC(0), Len: IntC(cell.N), Cap: IntC(cell.N), Elem: cell.Elem, Nil: FalseT}
+	default:
+		unsupported("hash of %T", v)
+	}
+	es := e.R().sortOf(byteT)
+	arr := x.memArr(e.st, s.Alloc, s.path)
+	ln := x.simplifyWithPC(e.st, s.Len)
+	out := ConstArr(e.zeroElem(byteT))
+	if n, ok := ln.Int64(); ok && n <= 128 {
+		var args []*Term
+		for i := int64(0); i < n; i++ {
+			args = append(args, Select(arr.T, Add(s.Off, IntC(i))))
+		}
+		for i := 0; i < outLen; i++ {
+			h := App(fmt.Sprintf("%s_%d", name, n), es, append([]*Term{IntC(int64(i))}, args...)...)
+			e.st.assume(e.R().rangeOf(h, byteT))
+			out = Store(out, IntC(int64(i)), h)
+		}
+	} else {
+		for i := 0; i < outLen; i++ {
+			h := App(name+"_seq", es, IntC(int64(i)), arr.T, s.Off, ln)
+			e.st.assume(e.R().rangeOf(h, byteT))
+			out = Store(out, IntC(int64(i)), h)
+		}
+	}
+	return ArrayV{T: out, N: int64(outLen), Elem: byteT, Typ: rt}
+}
+
+// simplifyWithPC rewrites a term with facts of the current path: symbols equal to constants are
+// substituted, and if-then-else conditions that are path facts are resolved. The facts are closed
+// under a few propositional rules (b = phi with b known, a => b with a known).
+func (x *Exec) simplifyWithPC(st *State, t *Term) *Term {
+	if t.IsConst() {
+		return t
+	}
+	facts := map[*Term]bool{}
+	var add func(p *Term)
+	add = func(p *Term) {
+		if facts[p] {
+			return
+		}
+		facts[p] = true
+		if p.Op == "and" {
+			for _, a := range p.Args {
+				add(a)
+			}
+		}
+	}
+	for _, p := range st.pc {
+		add(p)
+	}
+	holds := func(c *Term) bool {
+		if facts[c] {
+			return true
+		}
+		if c.Op == "and" {
+			for _, a := range c.Args {
+				if !facts[a] {
+					return false
+				}
+			}
+			return true
+		}
+		return false
+	}
+	for round := 0; round < 4; round++ {
+		n := len(facts)
+		var cur []*Term
+		for f := range facts {
+			cur = append(cur, f)
+		}
+		for _, f := range cur {
+			switch f.Op {
+			case "=":
+				a, b := f.Args[0], f.Args[1]
+				if a.S == BoolS {
+					if holds(a) {
+						add(b)
+					} else if holds(b) {
+						add(a)
+					} else if facts[Not(a)] {
+						add(Not(b))
+					} else if facts[Not(b)] {
+						add(Not(a))
+					}
+				}
+			case "=>":
+				if holds(f.Args[0]) {
+					add(f.Args[1])
+				}
+			}
+		}
+		if len(facts) == n {
+			break
+		}
+	}
+	m := map[string]*Term{}
+	for f := range facts {
+		switch {
+		case f.Op == "var" && f.S == BoolS:
+			m[f.Name] = TrueT
+		case f.Op == "not" && f.Args[0].Op == "var":
+			m[f.Args[0].Name] = FalseT
+		case f.Op == "=" && f.Args[0].Op == "var" && f.Args[1].IsConst():
+			m[f.Args[0].Name] = f.Args[1]
+		case f.Op == "=" && f.Args[1].Op == "var" && f.Args[0].IsConst():
+			m[f.Args[1].Name] = f.Args[0]
+		}
+	}
+	r := t
+	if len(m) > 0 {
+		r = subst(t, m)
+	}
+	return resolveIte(r, holds, facts)
+}
+
+func resolveIte(t *Term, holds func(*Term) bool, facts map[*Term]bool) *Term {
+	if t.Op == "ite" {
+		if holds(t.Args[0]) {
+			return resolveIte(t.Args[1], holds, facts)
+		}
+		if facts[Not(t.Args[0])] {
+			return resolveIte(t.Args[2], holds, facts)
+		}
+	}
+	if len(t.Args) == 0 || t.Op == "forall" || t.Op == "exists" {
+		return t
+	}
+	args := make([]*Term, len(t.Args))
+	ch := false
+	for i, a := range t.Args {
+		args[i] = resolveIte(a, holds, facts)
+		if args[i] != a {
+			ch = true
+		}
+	}
+	if !ch {
+		return t
+	}
+	return rebuild(t, args)
 }
